@@ -417,3 +417,50 @@ CHECKS["C03"]["bounds"]["thorough"] += "; walking layer with ignore on and off f
 
 CHECKS["C03"]["registered"] = True
 CHECKS["C03"]["level_note"] += " The walking layer enumerates concrete names (the rule text must be concrete to be compiled) and runs the real Pack over the model filesystem; the bundle builder's deletion walk is covered under C10."
+
+
+def sb_group(name, harness, quick, thorough, **kw):
+    g = {"name": name, "pkg": "./sourcebundle",
+         "sym_overlays": RT_SYM + ["models/svchost.go", "models/vfs.go", "models/tarchan.go", "models/env_sym.go", "models/bundle_models.go", "harness/sourcebundle/world.go"] + harness,
+         "native_overlays": RT_NAT + ["native/env_native.go", "harness/sourcebundle/world.go"] + harness,
+         "quick": quick, "thorough": thorough}
+    g.update(kw)
+    return g
+
+
+def build_items(tier):
+    P = lambda **kw: kw
+    if tier == "quick":
+        cfgs = [("r2d1a1", P(nPkg=2, nDeps=1, nReg=0, nAdds=1, relative=1), 1), ("r2d1a2", P(nPkg=2, nDeps=1, nReg=0, nAdds=2, relative=0), 4),
+                ("r3d1a1", P(nPkg=3, nDeps=1, nReg=0, nAdds=1, relative=0), 5),
+                ("g2d1a1", P(nPkg=2, nDeps=1, nReg=1, nAdds=1, relative=0), 8), ("m2d1a1", P(nPkg=2, nDeps=1, nReg=0, nAdds=1, relative=0, symMeta=1, symContent=1), 3)]
+    else:
+        cfgs = [("r2d1a1f2", P(nPkg=2, nDeps=1, nReg=0, nAdds=1, relative=0, finders=2), 16), ("r2d2a1", P(nPkg=2, nDeps=2, nReg=0, nAdds=1, relative=0), 16),
+                ("r2d1a3", P(nPkg=2, nDeps=1, nReg=0, nAdds=3, relative=1), 16), ("r3d1a2", P(nPkg=3, nDeps=1, nReg=0, nAdds=2, relative=1), 16),
+                ("r2d2a2f2", P(nPkg=2, nDeps=2, nReg=0, nAdds=2, relative=1, finders=2), 16), ("g3d1a2", P(nPkg=3, nDeps=1, nReg=1, nAdds=2, relative=1), 16),
+                ("g2d2a1", P(nPkg=2, nDeps=2, nReg=2, nAdds=1, relative=1), 16), ("m3d1a2", P(nPkg=3, nDeps=1, nReg=1, nAdds=2, relative=0, symMeta=1, symContent=1), 16)]
+    return [{"id": "build-" + n, "entry": "HarnessBuild", "params": prm, "shards": sh, "_w": 40} for (n, prm, sh) in cfgs]
+
+
+SB_NOTE = ("Trusted: go/ssa, gosym, z3 / the engine's byte-domain decision procedure (the world's choices are one-byte symbols; most branches are decided on their 256-entry truth tables), the vfs model, "
+           "the JSON channel (A-json), the content-hash model (A-hash), sort.Slice model, sync.Mutex as a held-flag (single goroutine). Fetcher, registry client, finders and tracer are harness objects whose answers are symbolic. "
+           "Sampled paths are replayed natively with the real encoding/json, dirhash, os and sort.")
+SB_ASSUME = A_COMMON + ["A-json, A-hash (injective channels)", "scripted world: packages git::https://h/pN.git with two module locations ('' and 'm'), registry packages ns/rN/sys, two offered versions",
+                        "single goroutine: schedules are outside the technique"]
+
+CHECKS["C14"] = {
+    "registered": False,
+    "level_text": "Bounded model checking by symbolic execution of the real Builder (AddRemoteSource, resolvePending, ensureRemotePackage, findRegistryPackageSource, Close, writeManifest, OpenDir) over scripted worlds whose dependency edges, finder choices and Add sequences are symbolic: on every world within the bound each package in the reference closure is fetched exactly once, every (source, finder) pair analysed exactly once, nothing outside the closure is touched, trace start/end events pair up, and every build terminates (step budget = inconclusive).",
+    "level_note": SB_NOTE,
+    "explanation": "worlds = all dependency edge sets reachable from the Add calls (edges drawn lazily and memoised), incl. self-loops, cycles, diamonds, relative and registry hops; counters of the harness fetcher / finder / registry and a recording tracer are compared with a reference closure",
+    "anchors": ["(*github.com/hashicorp/go-slug/sourcebundle.Builder).AddRemoteSource", "(*github.com/hashicorp/go-slug/sourcebundle.Builder).resolvePending", "(*github.com/hashicorp/go-slug/sourcebundle.Builder).ensureRemotePackage",
+                "(*github.com/hashicorp/go-slug/sourcebundle.Builder).Close", "(*github.com/hashicorp/go-slug/sourcebundle.Builder).writeManifest", "github.com/hashicorp/go-slug/sourcebundle.OpenDir"],
+    "bounds": {"quick": "2-3 packages x 2 module locations, 1 dependency per (location, finder) of kind none / remote (any location) / relative (./m ../ ./ ../m) / registry, 1 finder kind, 1-2 Add calls, 0-1 registry packages, symbolic content coincidence and commit metadata in one configuration",
+               "thorough": "up to 3 packages, 2 dependencies, 2 finders, 3 Add calls, 2 registry packages"},
+    "assumptions": SB_ASSUME,
+    "groups": [sb_group("build", ["harness/sourcebundle/c14.go"], quick=build_items("quick"), thorough=build_items("thorough"), reach=["built"], sample_every=200)],
+}
+CHECKS["C08"] = dict(CHECKS["C14"], **{
+    "level_text": "Same exploration as C14 with the closure assertions: after a fault-free build every added source and every transitively reported dependency can be looked up, the path lies under the target directory, holds exactly the content the fetcher delivered for that location, and commit metadata comes back unchanged; relative dependencies resolve inside the declaring package and registry dependencies to the address the registry named joined with the caller's sub-path.",
+    "anchors": CHECKS["C14"]["anchors"] + ["(*github.com/hashicorp/go-slug/sourcebundle.Bundle).LocalPathForSource", "(*github.com/hashicorp/go-slug/sourcebundle.Dependencies).AddLocalSource"],
+})
